@@ -15,6 +15,13 @@ stdin: JSON list of cases, stdout: one JSON object per case, in order.  Three ki
       the twin's function alone, and `py_consistent`, the property's acceptance condition evaluated with
       Python itself (eval of the documented types in the twin's namespace, `==` against the annotations).
 
+      layout 'inherit' (same stream): the module defines a chain of classes (`classes`); methods of the last ones - overrides of
+      documented / undocumented base methods, with or without a docstring of their own - are decorated in decorator form or
+      in call form (the decorator applied later to the class object / to the attribute).  The decorated functions are looked
+      up in the OWN __dict__ of the decorated classes; the docstring of a function is f.__doc__, never an inherited one.
+      Additionally `chain`: every class with all its own functions (annotations, own parsed docstring), input of
+      Model/DocstringClass.v.
+
   stream 'typing'      two documented-type texts and a context: eval(text, globals of check_docstring.py,
       context), reified; v1 == v2, v2 == v1; keys that _update_context adds for value 1.
 """
@@ -86,6 +93,21 @@ def reify(o, depth=0):
 # --------------------------------------------------------------------------------------------------
 def functions_of(mod, case):
     """the raw function objects of the case, in decoration order"""
+    if case.get('layout') == 'inherit':
+        # a chain of classes; decorated are the function objects in the OWN __dict__ of the decorated classes (never an inherited
+        # attribute): for the class decorator in class-dict order, for the function decorators in the order the case lists them
+        out = []
+        for k in case['classes']:
+            if not k['decorated']:
+                continue
+            own = getattr(mod, k['name']).__dict__
+            if case['mode'] == 'class':
+                out += [v for v in own.values() if isinstance(v, types.FunctionType)]
+            else:
+                # (an entry marked `inherited` is decorated through K but defined in a base: what getattr finds)
+                out += [getattr(getattr(mod, k['name']), f['name']) if f.get('inherited') else own[f['name']]
+                        for f in case['funcs'] if f['owner'] == k['name']]
+        return out
     if case['mode'] == 'class':
         k = getattr(mod, case['cls_name'])
         return [v for v in k.__dict__.values() if isinstance(v, types.FunctionType)]
@@ -168,6 +190,20 @@ def run_docstring(case):
         out['funcs'].append({'name': f.__name__, 'ann': ann, 'doc': doc, 'alone': outcome_of(alone),
                              'alone_exc': type(alone).__name__ if alone is not None else None,
                              'py_consistent': cons, 'py_evaluable': evaluable})
+    if case.get('layout') == 'inherit':
+        # every class of the chain with ALL its own functions, each with its own __doc__: the model (Model/DocstringClass.v)
+        # decides which of them the decoration reaches
+        out['chain'] = []
+        for k in case['classes']:
+            ms = []
+            for name, f in getattr(twin, k['name']).__dict__.items():
+                if isinstance(f, types.FunctionType):
+                    d = docstring_parser.parse(f.__doc__)
+                    ms.append({'name': name, 'ann': [[a, reify(v)] for a, v in inspect.getfullargspec(f).annotations.items()],
+                               'doc': {'raw': 'none' if f.__doc__ is None else 'empty' if f.__doc__ == '' else 'text',
+                                       'params': [[p.arg_name, p.type_name] for p in d.params],
+                                       'returns': None if d.returns is None else list(d.returns.args[1:])}})
+            out['chain'].append({'name': k['name'], 'base': k['base'], 'methods': ms})
     for m in ('pvt_' + tag, 'pvm_' + tag):
         sys.modules.pop(m, None)
         try:
